@@ -2144,11 +2144,18 @@ def process_include_scope(
                 " freephil.scope instance%s"
                 % (imported.path_elements[-1], imported.module_path, object.where_str)
             )
+    scope_key = "scope %s" % import_path
+    if scope_key in include_stack:
+        raise RuntimeError(
+            "Include dependency cycle: %s" % ", ".join(include_stack + [scope_key])
+        )
+    include_stack.append(scope_key)
     source_scope = source_scope.process_includes(
         converter_registry=converter_registry,
         reference_directory=None,
         include_stack=include_stack,
     )
+    include_stack.pop()
     if phil_path is None:
         result = source_scope
     else:
